@@ -49,14 +49,14 @@ Definition semver_cmp (v w : version) : comparison :=
   | c => c
   end.
 
-(* the integer list a version stands for *)
-Definition tail (v : version) : list Z :=
+(* the integer list a version stands for, given the integers lv that stand for the three labels *)
+Definition tail (lv : label -> Z) (v : version) : list Z :=
   match pre v with
   | None => []
-  | Some (l, None) => [label_rank l - 3]
-  | Some (l, Some n) => [label_rank l - 3; int_of_digits n]
+  | Some (l, None) => [lv l]
+  | Some (l, Some n) => [lv l; int_of_digits n]
   end.
-Definition ints (v : version) : list Z := vals v ++ tail v.
+Definition ints (lv : label -> Z) (v : version) : list Z := vals v ++ tail lv v.
 
 (* the known finding F9: different numeric arity, the version with fewer numeric fields is a pre-release, and the
    numeric parts are equal after zero-padding *)
